@@ -581,6 +581,71 @@ func c16Huge(c *fw.Ctx, idx int) {
 	}
 }
 
+// (d) every length: geometries of exactly idx coordinates for idx = 0, 1, 2, ...
+// in strides 2, 3, 4 and four types - a copy made in blocks of any size has its
+// boundary at some length, and no sampling of "round" sizes knows which.
+func c16EveryLength(c *fw.Ctx, idx int) {
+	for _, layout := range []geom.Layout{geom.XY, geom.XYZ, geom.XYZM} {
+		stride := layout.Stride()
+		n := idx * stride
+		for kind := 0; kind < 4; kind++ {
+			flat := make([]float64, n)
+			for i := range flat {
+				flat[i] = float64(i%9973) + 0.25
+			}
+			var t geom.T
+			switch kind {
+			case 0:
+				t = geom.NewLineStringFlat(layout, flat)
+			case 1:
+				t = geom.NewMultiPointFlat(layout, flat)
+			case 2:
+				t = geom.NewPolygonFlat(layout, flat, []int{stride * (idx / 3), n})
+			default:
+				t = geom.NewMultiPolygonFlat(layout, flat, [][]int{{stride * (idx / 2)}, {}, {n}})
+			}
+			c.SetInput(map[string]any{"type": fmt.Sprintf("%T", t), "layout": layout.String(), "coordinates": idx, "ordinate_i": "(i mod 9973) + 0.25"})
+			var cl geom.T
+			if c.Guard("panic", func() { cl = c01Clone(t) }) {
+				return
+			}
+			c.Eval(1)
+			cf := cl.FlatCoords()
+			if len(cf) != n {
+				c.Fail("clone-not-equal", "clone of %d ordinates has %d", n, len(cf))
+				return
+			}
+			for i := range cf {
+				if cf[i] != float64(i%9973)+0.25 {
+					c.Fail("clone-not-equal", "clone of a %T of %d ordinates: ordinate %d is %v, the original's is %v", t, n, i, cf[i], flat[i])
+					return
+				}
+			}
+			if !model.IntsEq(cl.Ends(), t.Ends()) || len(cl.Endss()) != len(t.Endss()) {
+				c.Fail("clone-not-equal", "clone of a %T of %d ordinates: ends %v / %v, the original's %v / %v", t, n, cl.Ends(), cl.Endss(), t.Ends(), t.Endss())
+				return
+			}
+			for i, e := range t.Endss() {
+				if !model.IntsEq(cl.Endss()[i], e) {
+					c.Fail("clone-not-equal", "clone of a %T of %d ordinates: endss %v, the original's %v", t, n, cl.Endss(), t.Endss())
+					return
+				}
+			}
+			if n > 0 {
+				cf[n-1], cf[0] = -1, -1
+				if flat[n-1] == -1 || flat[0] == -1 {
+					c.Fail("shared-storage", "writing the clone of a %T of %d ordinates shows in the original", t, n)
+					return
+				}
+			}
+		}
+	}
+	c.Count("lengths_cloned_in_3_strides_and_4_types")
+	if idx%1000 == 0 {
+		c.Distinct(fmt.Sprintf("every-length/%d", idx))
+	}
+}
+
 func init() {
 	fw.Register(&fw.Monitor{
 		ID:     "C16",
@@ -591,6 +656,7 @@ func init() {
 			{Name: "geometries", Quick: 120000, Thorough: 8000000, Run: c16Geoms},
 			{Name: "coord-bounds", Quick: 60000, Thorough: 2000000, Run: c16CoordBounds},
 			{Name: "huge", Quick: 48, Thorough: 4800, Chunk: 3, Run: c16Huge},
+			{Name: "every-length", Quick: 12001, Thorough: 40001, Chunk: 50, Run: c16EveryLength, Exhaustive: "every length from 0 to the class count in coordinates, strides 2-4, LineString/MultiPoint/Polygon/MultiPolygon"},
 		},
 		Require: []string{"storage_spare-capacity", "storage_empty-non-nil", "mut_Push", "mut_write every FlatCoords()[i]", "mut_bump ends", "mut_Reverse", "mut_SetCoords", "mut_TransformInPlace", "mut_Swap with a fresh geometry", "mut_SetSRID", "coord_clones", "bounds_clones", "mut_Bounds.Extend", "mut_Bounds.Set", "mut_Bounds.SetCoords"},
 	})
